@@ -69,8 +69,16 @@ def run_sequence(res, exe, rng, first, forced=None):
         res.violation("c19/" + key, msg + " | script: " + "; ".join(script[-6:]), sim=sim, expected=exp, observed=obs)
         return False
 
+    chained = [False, 0]         # a request inside the completion callback is armed / initiate frames of it seen
+
     def frames(evs):
-        return [(t, cid, d) for (t, cid, dlc, d, f) in S.txs(evs)]
+        out = []
+        for (t, cid, dlc, d, f) in S.txs(evs):
+            if chained[0] and cid == TX and d == bytes([0x40, 0x00, 0x20, 0x01, 0, 0, 0, 0]) and S.cbs(evs, "csdoreq"):
+                chained[1] += 1          # the initiate frame of an accepted chained request: judged by the chained-request rule below
+                continue
+            out.append((t, cid, d))
+        return out
 
     def callbacks(evs):
         return [(int(c[1]), int(c[2], 16), int(c[3]), int(c[4], 16), int(c[5])) for c in S.cbs(evs, "csdo")]
@@ -89,6 +97,13 @@ def run_sequence(res, exe, rng, first, forced=None):
             cbtimer = cfg.tmrnum > 1 and rng.random() < 0.25
             if cbtimer:
                 sim.cmd("csdocbtimer 20 7")
+            # chained requests: in one transfer of ten the completion callback asks for the next transfer on the same client.  The
+            # client may refuse it (it is still busy while it informs the application) or accept it - an accepted request is a
+            # transfer like any other: exactly one callback (here: its timeout, nobody answers), nothing left behind
+            cbreq = (not cbtimer) and rng.random() < 0.1
+            chained[0], chained[1] = cbreq, 0
+            if cbreq:
+                sim.cmd("csdocbreq 30")
             if tr.up:
                 r, evs = sim.ret_ev("csdoup 0 %x %x %d %d" % (tr.idx, tr.sub, tr.size, tr.timeout))
             else:
@@ -341,6 +356,20 @@ def run_sequence(res, exe, rng, first, forced=None):
                 if buf != tr.data:
                     k = next((i for i in range(len(buf)) if buf[i] != tr.data[i]), len(buf))
                     return fail("buffer", desc + ": user buffer differs from the server's bytes at offset %d" % k, tr.data.hex()[:80], buf.hex()[:80])
+            if cbreq:
+                rq = int(sim.ret("csdocbreqres")[0])
+                res.counters["requests_inside_completion_callback"] += 1
+                chained[0] = False
+                if rq != 0 and chained[1]:
+                    return fail("callback/chained-request", desc + ": the request inside the completion callback was refused (%d) but its initiate frame went out" % rq)
+                if rq == 0:
+                    res.counters["requests_inside_completion_callback_accepted"] += 1
+                    if chained[1] != 1:
+                        return fail("callback/chained-request", desc + ": the request inside the completion callback was accepted, %d initiate frames seen" % chained[1])
+                    evs = sim.cmd("tick 34")
+                    cb = callbacks(evs)
+                    if len(cb) != 1 or cb[0][3] != TIMEOUT_CODE:
+                        return fail("callback/chained-request", desc + ": the request issued inside the completion callback was accepted; callbacks until its timeout: %r, reference exactly one with 0504 0000h" % (cb,))
             st = sim.state()
             if st["csdo0"].split(",")[0] != "1":
                 return fail("not-idle", desc + ": client state %s after completion" % st["csdo0"])
